@@ -564,20 +564,20 @@ Fixpoint lex_f (fuel : nat) (ls : lexstate) (src : list ch) (lineno : Z) : res l
                    else if list_eqb ttype (zs "Rhythm") then
                      let '(s2, ln2) := skip_space s1 ln in
                      let '(block, s3, ln3) := get_token_nest s2 ln2 123 125 in
-                     do sub <- lex_f f ls (rhythm_expand (S (length block)) (lx_rhythm ls) block) ln3;
+                     do sub <- lex_f f ls (rhythm_expand (S (length block)) (lx_rhythm ls) block) ln2;
                      let '(toks, ls') := sub in
                      loop n' ls' s3 ln3 harmony (acc ++ toks)
                    else if list_eqb ttype (zs "Sub") then
                      let '(s2, ln2) := skip_space s1 ln in
                      let '(block, s3, ln3) := get_token_nest s2 ln2 123 125 in
-                     do sub <- lex_f f ls block ln3;
+                     do sub <- lex_f f ls block ln2;      (* the block is lexed from the line it starts on *)
                      let '(toks, ls') := sub in
                      loop n' ls' s3 ln3 harmony (acc ++ [TSub toks])
                    else if list_eqb ttype (zs "Div") then
                      let '(s2, ln2) := skip_space s1 ln in
                      let '(block, s3, ln3) := get_token_nest s2 ln2 123 125 in
                      let '(len, s4, ln4) := get_note_length s3 ln3 in
-                     do sub <- lex_f f ls block ln4;
+                     do sub <- lex_f f ls block ln2;
                      let '(toks, ls') := sub in
                      loop n' ls' s4 ln4 harmony (acc ++ [TDiv (div_count toks) len toks])
                    else Unsupported U_UPPER
@@ -642,7 +642,7 @@ Fixpoint lex_f (fuel : nat) (ls : lexstate) (src : list ch) (lineno : Z) : res l
              if true then
                let '(block, s3, ln3) := get_token_nest s ln 123 125 in
                let '(len, s4, ln4) := get_note_length s3 ln3 in
-               do sub <- lex_f f ls block ln4;
+               do sub <- lex_f f ls block ln;
                let '(toks, ls') := sub in
                loop n' ls' s4 ln4 harmony (acc ++ [TDiv (div_count toks) len toks])
              else Unsupported U_CHAR
